@@ -14,3 +14,4 @@ import RzmqModel.Props.C14
 #print axioms Rzmq.C14.receiver_buffer_bounded
 #print axioms Rzmq.C14.dealer_pending_queue_is_bounded
 #print axioms Rzmq.C14.dealer_refused_send_changes_nothing
+#print axioms Rzmq.C14.dealer_refuses_only_at_the_high_water_mark
